@@ -2,9 +2,10 @@
 (***************************************************************************)
 (* Binding B for C13.  harness/drive_history.py replays compile histories  *)
 (* on one real dictionary and records, per step, the abstraction of the    *)
-(* dictionary afterwards (when it changed), and per Compile the behaviour  *)
-(* map of the resulting codec object; `module` lines carry the abstraction *)
-(* of the fresh parse and the behaviour maps of fresh compile_string calls.*)
+(* dictionary afterwards (content-addressed: side file <trace>.snaps), and *)
+(* per Compile the behaviour map of the resulting codec object; the side   *)
+(* file <trace>.mods carries, per module, the behaviour maps of fresh      *)
+(* compile_string calls.                                                   *)
 (*                                                                         *)
 (* One action consumes one line and writes exactly one report.  Checks:    *)
 (*                                                                         *)
@@ -27,9 +28,14 @@
 EXTENDS CompilePasses, Json, IOUtils, FiniteSets
 
 Tr == ndJsonDeserialize(IOEnv.TRACE_FILE)
+ModRecs == ndJsonDeserialize(IOEnv.TRACE_FILE \o ".mods")
+SnapRecs == ndJsonDeserialize(IOEnv.TRACE_FILE \o ".snaps")
 
-VARIABLES i, gMods
-vars == <<i, gMods>>
+ModOf(name) == ModRecs[SeqIndex(ModRecs, LAMBDA r : r.mod = name)]
+SnapOf(h) == SnapRecs[SeqIndex(SnapRecs, LAMBDA r : r.h = h)].d
+
+VARIABLE i
+vars == <<i>>
 
 V(vi, s, check, verdict, detail) ==
   [vi |-> vi, codec |-> s.codec, ne |-> s.ne, check |-> check, verdict |-> verdict, detail |-> detail]
@@ -106,9 +112,8 @@ DiffMods(A, B) ==
 ------------------------------------------------------------------------------
 (* judging one history line                                                 *)
 
-Before(L, d0, k) ==
-  LET js == {j \in 1..(k - 1) : L.steps[j].changed}
-  IN IF js = {} THEN d0.mods ELSE L.steps[CHOOSE j \in js : \A q \in js : q <= j].after.mods
+\* the observed dictionary before step k (= after step k - 1)
+Before(L, d0, k) == IF k = 1 THEN d0.mods ELSE SnapOf(L.steps[k - 1].after).mods
 
 MechVerdict(L, d0, k) ==
   LET s == L.steps[k]
@@ -137,7 +142,7 @@ ModelBefore(d0, hist, k, S) ==
 
 \* history deviations that can have been reached before step k
 HistCands(L, d0, k) ==
-  (IF \E j \in 1..(k - 1) : L.hist[j].a = "C" /\ L.hist[j].ne THEN {"DevEnumDefaultInPlace"} ELSE {})
+  (IF \E j \in 1..k : L.hist[j].a = "C" /\ L.hist[j].ne THEN {"DevEnumDefaultInPlace"} ELSE {})
   \cup (IF \E j \in 1..(k - 1) : L.hist[j].a = "P" THEN {"DevPformatSortsDicts"} ELSE {})
   \cup (IF AnyParam(d0.mods) /\ \E j \in 1..(k - 1) : L.hist[j].a = "C" THEN {"DevDefaultsBeforeParameterization"} ELSE {})
 
@@ -176,18 +181,14 @@ StepVerdicts(L, mrec, k) ==
      \o (IF s.a = "C" /\ s.st = "ok" THEN <<LateVerdict(L, k)>> ELSE <<>>)
 
 HistVerdicts(L) ==
-  IF L.mod \notin DOMAIN gMods THEN <<V(0, NoStep, "ANY", "machinery", "history line before its module line")>>
-  ELSE LET mrec == gMods[L.mod]
-       IN IF L.d0h # mrec.d0h THEN <<V(0, NoStep, "PARSE", "reject", "two parses of the same text differ")>>
-          ELSE <<V(0, NoStep, "PARSE", "ok", "")>> \o Concat([k \in 1..Len(L.steps) |-> StepVerdicts(L, mrec, k)])
-
-ModuleVerdicts(L) ==
-  <<IF L.d0.alias = 0 THEN V(0, NoStep, "MODULE", "ok", "")
-    ELSE V(0, NoStep, "MODULE", "reject", "parser output shares sub-dictionaries")>>
+  LET m == ModOf(L.mod)
+      mrec == [d0 |-> SnapOf(m.d0h), d0h |-> m.d0h, fresh |-> m.fresh]
+  IN IF L.d0h # mrec.d0h THEN <<V(0, NoStep, "PARSE", "reject", "two parses of the same text differ")>>
+     ELSE IF mrec.d0.alias # 0 THEN <<V(0, NoStep, "PARSE", "reject", "parser output shares sub-dictionaries")>>
+     ELSE <<V(0, NoStep, "PARSE", "ok", "")>> \o Concat([k \in 1..Len(L.steps) |-> StepVerdicts(L, mrec, k)])
 
 LineReport(L) ==
-  LET all == CASE L.ev = "module" -> ModuleVerdicts(L)
-               [] L.ev = "hist" -> HistVerdicts(L)
+  LET all == CASE L.ev = "hist" -> HistVerdicts(L)
                [] OTHER -> <<V(0, NoStep, "ANY", "machinery", L.why)>>
   IN [cid |-> L.cid, n |-> Len(all),
       ok |-> Len(SelectSeq(all, LAMBDA r : r.verdict = "ok")),
@@ -197,14 +198,10 @@ Emit(r) ==
   Serialize(ToJson(r) \o "\n", IOEnv.VERDICT_FILE,
             [format |-> "TXT", charset |-> "UTF-8", openOptions |-> <<"WRITE", "CREATE", "APPEND">>]).exitValue = 0
 
-Init == i = 1 /\ gMods = [x \in {} |-> 0]
+Init == i = 1
 
 Next == /\ i <= Len(Tr)
         /\ Emit(LineReport(Tr[i]))
-        /\ gMods' = IF Tr[i].ev = "module"
-                    THEN [x \in DOMAIN gMods \cup {Tr[i].mod} |->
-                            IF x = Tr[i].mod THEN [d0 |-> Tr[i].d0, d0h |-> Tr[i].d0h, fresh |-> Tr[i].fresh] ELSE gMods[x]]
-                    ELSE gMods
         /\ i' = i + 1
 
 Spec == Init /\ [][Next]_vars
